@@ -126,9 +126,13 @@ Print Assumptions C03_code_dispatch.
    scale * (smeared X) + background for EVERY weight matrix: the background is not multiplied by the column sums,
    which differ from one for slit columns at the ends of the grid (C03_affine shows what would happen inside). *)
 From SM Require Import Gen.C03_theory.
-Theorem C03_code_theory : theory_translated = true -> forall (T : Type) (O : Ops T) sesans res kern bg,
-  code_theory O sesans res kern bg = map (fun x => add O x (if sesans then zero O else bg)) (res (kern (zero O))).
-Proof. intros Ht. try solve [vm_compute in Ht; discriminate Ht]. all: reflexivity. Qed.
+Theorem C03_code_theory : theory_translated = true -> forall sesans res kern bg,
+  code_theory ROps sesans res kern bg = map (fun x => x + (if sesans then 0 else bg)) (res (kern 0)).
+Proof.
+  intros Ht sesans res kern bg. try solve [vm_compute in Ht; discriminate Ht].
+  (* (by [ring] under the map, so that "background + result" for "result + background" keeps the proof) *)
+  all: unfold code_theory; cbn [add zero ROps]; apply map_ext; intros x; destruct sesans; ring.
+Qed.
 Print Assumptions C03_code_theory.
 Theorem C03_code_background_after : theory_translated = true -> forall cols X a bg,
   Forall (fun col => length X = length col) cols ->
@@ -136,7 +140,7 @@ Theorem C03_code_background_after : theory_translated = true -> forall cols X a 
   = map (fun col => a * apply ROps X col + bg) cols.
 Proof.
   intros Ht cols X a bg Hl. rewrite (C03_code_theory Ht). rewrite map_map. apply map_ext_in. intros col Hin.
-  rewrite Forall_forall in Hl. cbn [add zero ROps]. rewrite apply_affine by (apply Hl; exact Hin). ring.
+  rewrite Forall_forall in Hl. rewrite apply_affine by (apply Hl; exact Hin). ring.
 Qed.
 Print Assumptions C03_code_background_after.
 (* sesans data: no background at all *)
@@ -146,6 +150,6 @@ Theorem C03_code_sesans_no_background : theory_translated = true -> forall cols 
   = map (fun col => a * apply ROps X col) cols.
 Proof.
   intros Ht cols X a bg Hl. rewrite (C03_code_theory Ht). rewrite map_map. apply map_ext_in. intros col Hin.
-  rewrite Forall_forall in Hl. cbn [add zero ROps]. rewrite apply_affine by (apply Hl; exact Hin). ring.
+  rewrite Forall_forall in Hl. rewrite apply_affine by (apply Hl; exact Hin). ring.
 Qed.
 Print Assumptions C03_code_sesans_no_background.
